@@ -98,6 +98,10 @@ class ProgGen:
             return ["let", ["var", v], ["bin", "+", ["var", v], ["num", "1", 1]], False]
         if r < 5:
             return ["print", [["e", ["var", v]], ["s", ";"]]]
+        if self.d(st.integers(0, 3)) == 0:
+            # a constant written with a decimal point (it may stand directly before ELSE, ':' or the line end)
+            self.features.add("decimal_point_constant")
+            return ["let", ["var", v], ["num", self.d(st.sampled_from(["1.5", ".5", "2.", "0.25", "3.0"])), 0], False]
         return ["let", ["var", v], ["num", str(self.d(st.integers(0, 3))), 0], False]
 
     def fix_num(self, s):
@@ -113,6 +117,9 @@ class ProgGen:
         out = []
         for _ in range(n):
             r = self.d(st.integers(0, 9))
+            if self.d(st.integers(0, 11)) == 0:
+                out.append(["empty"])  # nothing between two colons, or between a colon and ELSE / the line end
+                self.features.add("empty_statement")
             if r < 6 or depth <= 0:
                 out.append(self.simple())
             elif r < 7 and sibling_ids:
@@ -162,6 +169,9 @@ class ProgGen:
         if depth > 0 and self.d(st.integers(0, 3)) == 0 and not (stmts and stmts[-1][0] in ("goto", "end", "stop")):
             stmts.append(self.if_stmt(depth - 1, fwd_ids, closed=closed))
             self.features.add("nested_if")
+        elif self.d(st.integers(0, 9)) == 0 and stmts and stmts[-1][0] not in ("if",):
+            stmts.append(["empty"])  # 'THEN A=1: ELSE ...' / a colon at the end of the line
+            self.features.add("empty_statement")
         return ["stmts", stmts]
 
     def if_stmt(self, depth, fwd_ids, closed=False):
